@@ -704,7 +704,14 @@ def ev(name, **kw):
 
 def gen_queue_prog(rng):
     """many runnable threads, every yield option, optionally the work-stealing API with a declining decision callback"""
-    bodies = gen_core_prog(rng, maxb=12, flagset=(0, 0, F_PF), reap=('JN',), yields=(0, 1, 2, 3, 4))
+    if rng.random() < 0.3:
+        # fan: one thread pushes many children (parent first) without ever popping its own queue, so that with the
+        # small-queue build the queue indices reach the end of the array and push / put re-centre the contents
+        n = rng.randint(9, 14)
+        kids = [[(OP['YD'], rng.choice((0, 1, 2, 3, 4)), 0, 0)] if rng.random() < 0.4 else [] for _ in range(n)]
+        bodies = _spawn_join(rng, kids, flagset=(F_PF, F_PF, F_PF, 0))
+    else:
+        bodies = gen_core_prog(rng, maxb=12, flagset=(0, 0, F_PF), reap=('JN',), yields=(0, 1, 2, 3, 4))
     init = [(4, 0, rng.choice((1, 2)))] if rng.random() < 0.4 else []
     return {'init': init, 'bodies': bodies}
 
